@@ -1351,6 +1351,15 @@ def resolve_ts(name, names, scratch):
     return (X, y)
 
 
+def prep_state(idnt):
+    """Remembered pipeline, with 'nothing remembered' equal to the empty
+    pipeline (a fit fills in the defaults [] / {} without any preprocessing
+    having happened)."""
+    fp = idnt.fit_properties
+    return enc([fp.get("preprocessing") or [],
+                fp.get("preprocessing_options") or {}])
+
+
 def rate_key(idnt, kw, tsname):
     fp = idnt.fit_properties
     h = fp["hash"] if (fp and "hash" in fp) else "none"
@@ -1543,18 +1552,14 @@ class CurveEngineC09:
         changed = 0
         for i, op in enumerate(run["ops"]):
             if op["op"] != "rate":
-                before_prep = enc([idnt.fit_properties.get("preprocessing"),
-                                   idnt.fit_properties.get(
-                                       "preprocessing_options")])
+                before_prep = prep_state(idnt)
                 outcome = apply_op(idnt, op)
                 executed += 1
                 changed += 1
                 if outcome.get("fired"):
                     f = outcome["fired"]
                     faults[f"{f['seam']}:{f['exc']}"] += 1
-                after_prep = enc([idnt.fit_properties.get("preprocessing"),
-                                  idnt.fit_properties.get(
-                                      "preprocessing_options")])
+                after_prep = prep_state(idnt)
                 if after_prep != before_prep:
                     # the remembered pipeline changed: the cache must not
                     # survive this (a request equal to the remembered one is
